@@ -226,6 +226,24 @@ func runC07(c *Ctx) {
 	// ids of third-party agents: never the id of a registered Demon (the teamserver refuses a second agent with an id in use), so that a
 	// service download and a Demon transfer cannot be two writers of one local file
 	evilIDs := []string{"00000c01", "../../escaped", "../listener", "00000a01/../0000beef", ".", "..", "", "a/b", "x\\y", "00000c02", "....", "Download"}
+	// every name of the list through every writer, once, before the random histories
+	w.line(c, "reset")
+	for _, id := range ids {
+		w.line(c, "agent "+id)
+	}
+	for i, name := range names {
+		fid := uint32(100 + i)
+		h := hx([]byte(name))
+		w.line(c, fmt.Sprintf("dlopen %s %d %s 8", ids[i%2], fid, h))
+		w.line(c, fmt.Sprintf("dlwrite %s %d %s", ids[i%2], fid, hx([]byte{byte(i), 1, 2})))
+		w.line(c, fmt.Sprintf("dlclose %s %d 0", ids[i%2], fid))
+		w.line(c, fmt.Sprintf("bopen %s %d %s 8", ids[2], fid, h))
+		w.line(c, fmt.Sprintf("bclose %s %d", ids[2], fid))
+		w.line(c, fmt.Sprintf("svcdl %s %s %s", hx([]byte("00000c01")), h, hx([]byte{byte(i)})))
+		w.line(c, fmt.Sprintf("shot %s %s", hx([]byte("00000c02")), h))
+		w.line(c, fmt.Sprintf("svcdl %s %s %s", hx([]byte(evilIDs[i%len(evilIDs)])), h, hx([]byte{byte(i)})))
+		c.Count("name-battery")
+	}
 	for c.Lines < c.N {
 		w.line(c, "reset")
 		for _, id := range ids {
